@@ -11,6 +11,13 @@ struct StatusCode {
 };
 #define ANA_CHECK(X) do { if ((X).isFailure()) { mon::out() << "ANA_CHECK_FAIL\n"; return StatusCode::FAILURE; } } while (0)
 
+// messaging macros of the real AnaAlgorithm base (AsgMessaging): logged, never fatal
+#define MON_MSG(LVL, X) do { std::ostringstream mon_s; mon_s << X; mon::out() << "MSG level=" LVL " text=" << mon::hex(mon_s.str()) << "\n"; } while (0)
+#define ANA_MSG_DEBUG(X) MON_MSG("DEBUG", X)
+#define ANA_MSG_INFO(X) MON_MSG("INFO", X)
+#define ANA_MSG_WARNING(X) MON_MSG("WARNING", X)
+#define ANA_MSG_ERROR(X) MON_MSG("ERROR", X)
+
 struct ISvcLocator {};
 
 // ATLAS containers hold pointers to const elements
